@@ -57,6 +57,15 @@ def jobs(tier):
                 if uf:
                     opts["users_first"] = True
                 out.append({"prop": PROP, "cfg": cfg, "order": "asc", "base": "B1", "scripts": A.stamp(sc), "opts": opts})
+    # first-ever start: the tree exists on one side before any engine has run; stop at every boundary of that first
+    # synchronisation (initial walk done or not, first cursor stored or not), restart in the three modes
+    for cfg in cfgs:
+        for base_side in (0, 1):
+            for sc in ([[], []], [[["create", "c"]], []], [[], [["create", "c"]]], [[["write", "a"]], []], [[], [["delete", "d/b"]]]):
+                if sc[1 - base_side] and sc[1 - base_side][0][0] != "create":
+                    continue
+                out.append({"prop": PROP, "cfg": cfg, "order": "asc", "base": "B1", "scripts": A.stamp(sc),
+                            "opts": {"storage": True, "unsynced_base": True, "base_side": base_side, "check_base": False}})
     return out
 
 
